@@ -6,19 +6,22 @@ from vf import extract as X
 
 D = "rust/lance-table/src/rowids/"
 BM, EA, SG = D + "bitmap.rs", D + "encoded_array.rs", D + "segment.rs"
+RS = "rust/lance-table/src/rowids.rs"
 
 UNIT = dict(
     engine="kani-transplant",
     deps='vstd = { path = "/verif/models/vstd" }',
     encoded={BM: ["whole file up to #[cfg(test)]"], EA: ["whole file up to #[cfg(test)]"],
-             SG: ["whole file up to #[cfg(test)] except the DeepSizeOf impl"]},
+             SG: ["whole file up to #[cfg(test)] except the DeepSizeOf impl"],
+             RS: ["struct RowIdSequence", "RowIdSequence::{new, len, is_empty, extend, get}"]},
     models=["Vec<u8>/Vec<u16>/Vec<u32>/Vec<u64>/Vec<bool> -> vstd::cvec fixed-capacity contiguous vector (capacity 4; derefs to a real slice, so binary_search/iter/first/last are the real core code; sort_unstable -> insertion sort)",
             "vec![x; n] -> Vec::verif_filled(x, n); slice.to_vec() -> iter().copied().collect() (allocation only)",
+            "Vec<U64Segment> (the segment list of a RowIdSequence) -> vstd::vec fixed-capacity vector (4 segments)",
             "lance_core::Error -> unit-like error (format!/location! payload dropped); deepsize derive/impl removed"],
     bounds={"arrays": "<= 3 symbolic elements (capacity 4), arbitrary u64 bases and offsets", "bitmaps": "<= 32 bits (4 bytes)",
             "segments": "pre-states built directly: Range (any), RangeWithHoles (<=2 holes), RangeWithBitmap (<=16 slots), SortedArray/Array (<=3 values)",
             "unwind": 9},
-    outside=["U64Segment::delete/mask/slice and from_slice on symbolic input beyond 3 values", "RowIdSequence (rowids.rs) and RowIdIndex (index.rs): Arc/rangemap/nested Vec"],
+    outside=["U64Segment::delete/mask/slice and from_slice on symbolic input beyond 3 values", "RowIdSequence::delete/mask/slice/select/rechunk_sequences and RowIdIndex (index.rs: decompose_sequence, rangemap, Arc): nested Vec + boxed iterators + float size estimates did not fit"],
 )
 
 ERR = """#[derive(Debug, PartialEq)]
@@ -54,6 +57,14 @@ def build(repo, subs):
     sg = subs.lit(sg, "use super::{bitmap::Bitmap, encoded_array::EncodedU64Array};", "use crate::{bitmap::Bitmap, encoded_array::EncodedU64Array};", why="module path")
     n_lc = sg.count("lance_core::")
     sg = subs.lit(sg, "lance_core::", "crate::lance_core::", count=n_lc, why="unit-like Error")
+    # RowIdSequence: the struct and its len / is_empty / extend / get
+    rs = X.strip_tests(repo.read(RS))
+    impl = X.extract_item(rs, r"^impl RowIdSequence \{")
+    fns = [X.extract_item(impl, r"^\s*pub fn %s\b" % n) for n in ("new", "len", "is_empty", "extend", "get")]
+    st = X.extract_item(rs, r"^pub struct RowIdSequence\b")
+    st = subs.lit(st, "#[derive(Debug, Clone, DeepSizeOf, PartialEq, Eq, Default)]", "#[derive(Debug, Clone, PartialEq, Eq, Default)]", why="deepsize derive is bookkeeping")
+    st = subs.lit(st, "pub struct RowIdSequence(Vec<U64Segment>);", "pub struct RowIdSequence(pub Vec<U64Segment>);", why="visibility: the harness builds sequences directly")
+    seq = "use vstd::vec::Vec;\nuse crate::segment::U64Segment;\n\n" + st + "\n\nimpl RowIdSequence {\n" + "\n\n".join(fns) + "\n}\n"
     lib = ("#![allow(dead_code, unused_imports, unused_variables, unused_mut, clippy::all)]\n"
-           "pub mod lance_core {\n" + ERR + "}\npub mod bitmap;\npub mod encoded_array;\npub mod segment;\npub mod harness;\n")
-    return {"src/lib.rs": lib, "src/bitmap.rs": bm, "src/encoded_array.rs": ea, "src/segment.rs": sg}
+           "pub mod lance_core {\n" + ERR + "}\npub mod bitmap;\npub mod encoded_array;\npub mod segment;\npub mod rowseq;\npub mod harness;\n")
+    return {"src/lib.rs": lib, "src/bitmap.rs": bm, "src/encoded_array.rs": ea, "src/segment.rs": sg, "src/rowseq.rs": seq}
